@@ -18,10 +18,10 @@ def signature(msg, case_lines):
 # 2 = regDownstreamBlocking may feed a stage whose ready waits for valid (-> reduceWidth): such chains can get stuck for good.
 #     Eventual delivery is not part of C16's statement: the driver counts these as observations (`obs` in the evidence);
 #     beats that are *lost* (everything idle, emitted < specified) are a PROPFAIL `lost:<stage>` in every stream.
-# 8 = also the shapes of Packet.h's widthExtend/widthReduce that are wrong on the unchanged tree (not in the default streams; findings
-#     reported to the coordinator): widthExtend ratio>1 on streams with Sop (`seq:pext:sop`, `law:pext`, `frame:*`), ByteEnable
-#     groups wider than 1 bit or ratios that are no power of two through either (`seq:pext:be`, `seq:pred:be`, build errors).
-#     To enable: add e.g. [100, 400, 8] to the stream lists below.
+# 8 = also the shapes of Packet.h's widthExtend/widthReduce hit by two defects of the tree as found (repairs in
+#     harness/examples/c16_fix_widthextend_sop.diff.txt and c16_fix_byteenable_offset.diff.txt; the Lean model follows the repaired code):
+#     widthExtend with ratio > 1 on streams that carry Sop (`seq:pext:sop`, `law:pext`, `frame:*` without the repair), ByteEnable groups
+#     wider than one bit or ratios that are no power of two through either (`seq:pext:be`, `seq:pred:be`, elaboration errors without it).
 # 4 = mostly chains with reduceWidth directly followed by delay(n>=1) (finding F5, fixed in /repo 553e604; must stay green).
 vlib.standard_check({
     "prop": "C16",
@@ -30,8 +30,8 @@ vlib.standard_check({
     "prop_module": "GateryModel.Properties.C16",
     "exe": "gv_c16",
     "harness": "c16",
-    "streams": {"quick": [[400, 1000, 0], [60, 400, 1], [60, 400, 2], [100, 400, 4]],
-                "thorough": [[3000, 2000, 0], [600, 8000, 0], [300, 1000, 1], [300, 1000, 2], [300, 1000, 4]]},
+    "streams": {"quick": [[400, 1000, 0], [60, 400, 1], [60, 400, 2], [100, 400, 4], [150, 500, 8]],
+                "thorough": [[3000, 2000, 0], [600, 8000, 0], [300, 1000, 1], [300, 1000, 2], [300, 1000, 4], [1500, 1500, 8]]},
     "search": [[1000, 1000, 0], [300, 1000, 7]],
     "signature": signature,
     "eval_key": "ops",
